@@ -166,15 +166,16 @@ def obs_constructor_rejects():
     return FnObligation(name, run, [DG + "DataGeneratorObservations.__post_init__"])
 
 
-def param_generate(user_shape, method="uniform"):
+def param_generate(user_shape, method="uniform", int_table=False):
     """user_shape: 'n' | 'n1' | 'bad' — shape of the user table for key 'u'; key 'r' is sampled from its range
     (uniform draw, or the regular grid lo + k (hi - lo) / n).  'u' also has a range: the table has priority."""
-    name = f"C15/DataGeneratorParameter.generate_data/ensures[user_table={user_shape}{'' if method == 'uniform' else ',method=' + method}]"
+    name = (f"C15/DataGeneratorParameter.generate_data/ensures[user_table={user_shape}{'' if method == 'uniform' else ',method=' + method}"
+            f"{',integer_valued_table' if int_table else ''}]")
     def run(seed):
         t0 = time.time()
         ex = Executor(SRC)
         shp = {"n": (n,), "n1": (n, 1), "bad": (n, 2), "short": (n - 1, 1)}[user_shape]
-        ut = table("user", shp)
+        ut = (itable if int_table else table)("user", shp)
         lo, hi = z3.Real("lo"), z3.Real("hi")
         pre0 = [n >= 2, b >= 1, b <= n]
         user_dict = {"u": ut}
@@ -200,7 +201,7 @@ def param_generate(user_shape, method="uniform"):
         pn = rec.fields["param_n_samples"]
         us = getattr(ex, "uniforms", [])
         goals = [("keys", z3.BoolVal(sorted(pn.keys()) == ["r", "u"])),
-                 ("user_table_has_priority", pn["u"].elem(k, 0) == (ut.elem(k) if user_shape == "n" else ut.elem(k, 0))),
+                 ("user_table_has_priority", pyvc.zreal(pn["u"].elem(k, 0)) == pyvc.zreal(ut.elem(k) if user_shape == "n" else ut.elem(k, 0))),
                  ("user_shape", z3.And(zint(pn["u"].shape[0]) == n, zint(pn["u"].shape[1]) == 1)),
                  ("sampled_shape", z3.And(zint(pn["r"].shape[0]) == n, zint(pn["r"].shape[1]) == 1)),
                  ("one_draw_for_the_sampled_key_only", z3.BoolVal(len(us) == (1 if method == "uniform" else 0))),
@@ -305,6 +306,24 @@ def native_alignment():
 
 
 def native_param(user_shape):
+    """under the current (64-bit) types and under JAX's default 32-bit types"""
+    import jax
+    w = _native_param(user_shape)
+    if w:
+        return w
+    ctx = getattr(jax, "enable_x64", None)
+    if ctx is not None:
+        try:
+            with ctx(False):
+                w = _native_param(user_shape)
+            if w:
+                return [m + " [JAX's default 32-bit types]" for m in w]
+        except Exception:
+            return None
+    return None
+
+
+def _native_param(user_shape):
     import jax, jax.numpy as jnp
     import numpy as np
     from jinns.data._DataGenerators import DataGeneratorParameter
@@ -328,6 +347,14 @@ def native_param(user_shape):
             r = np.asarray(g.param_n_samples["r"]).reshape(-1)
             if r.min() < 0.0 or r.max() > 1.0:
                 return [f"{what}: samples of 'r' outside its range"]
+    if user_shape in ("n", "n1"):
+        # an integer-valued table with entries that the default float type cannot represent is served as it is
+        big = jnp.arange(nn, dtype=jnp.int32) * 2 + 16777217
+        tabi = big if user_shape == "n" else big[:, None]
+        g = DataGeneratorParameter(jax.random.PRNGKey(0), nn, 3, {"r": (0.0, 1.0)}, "uniform", {"u": tabi})
+        got = sorted(int(v) for v in np.asarray(g.param_n_samples["u"]).reshape(-1).tolist())
+        if got != sorted(int(v) for v in np.asarray(big).tolist()):
+            return [f"integer table {np.asarray(big).tolist()} of shape {tuple(tabi.shape)}: stored samples are {got}"]
     return None
 
 
@@ -337,5 +364,6 @@ def obligations(tier):
            obs_constructor(("n", 2), ("n", 1), int_inputs=True), obs_constructor(("n",), ("n", 2), int_inputs=True),
            obs_constructor(("n", 1), ("n", 1), sharding=True, eq_keys=("nu", "D")), obs_constructor(("n", 1), ("n", 1), eq_keys=("nu", "D")),
            param_generate("n"), param_generate("n1"), param_generate("bad"), param_generate("short"),
-           param_generate("n", "grid"), param_generate("n1", "grid"), param_generate("bad", "grid"), multi_loader()]
+           param_generate("n", "grid"), param_generate("n1", "grid"), param_generate("bad", "grid"),
+           param_generate("n", int_table=True), param_generate("n1", int_table=True), multi_loader()]
     return obs
